@@ -38,7 +38,7 @@ def _flat(v):
 
 def write_replay(pid, u, r, o, scratch):
     from . import unit as U
-    d = os.path.join(VERIF, 'replays', pid)
+    d = os.path.join(os.environ.get('VERIF_REPLAY_DIR') or os.path.join(VERIF, 'replays'), pid)
     os.makedirs(d, exist_ok=True)
     path = os.path.join(d, '%s.%s.%s.json' % (re.sub(r'\W', '_', u['name']), re.sub(r'\W', '_', r['variant']), re.sub(r'\W', '_', o['name'])))
     rec = dict(property=pid, unit=u['name'], variant=r['variant'], obligation=o['name'], description=o['desc'], clause=o.get('clause', ''),
